@@ -82,4 +82,22 @@ PROPS = {
             "precondition legal_pos: well-formed position in which the side not to move is not in check",
         ],
     },
+    "C09": {
+        "title": "an interrupted search leaves the engine's position untouched: frame contract on every return path of search_negamax / search_quiescence",
+        "units": ["search_frame"],
+        "deciding": [r"^SearchSlice::", r"^Bitboard::(make|unmake)$", r"^(nondet|havoc_move|frame_is_any_move_legal|lemma_wf_preserved)$"],
+        "owned": [r"^SearchSlice::"],
+        "design_ref": "DESIGN.md §1.3, §3 C09",
+        "level_text": "proof of the frame claim (board view on exit == board view on entry) for every return path, with every branch condition — including the stop flag and the clock — nondeterministic, i.e. for every interruption point and timing; other clauses of C09 are not decided",
+        "technique": "contract-based deductive verification (Verus) of a mechanical control-flow/board-mutation slice re-derived from the real source on every run, against the make/unmake contracts",
+        "assumptions": [
+            "the verified text is a mechanical slice (tools/skeleton.py) of Search::search_negamax and Search::search_quiescence: control flow and board calls kept, every condition nondeterministic, everything else dropped after a syntactic frame check (no assignment to / &mut of the board path, dropped &mut-self methods recursively board-clean, board methods called from dropped code have &self receivers in the real source)",
+            "ASSUMED data flow: each move variable passed to make/unmake is a generated move of the position current at its binding site (move_wf, no king capture, clocks in machine range)",
+            "make/unmake assumed with contract files spec/contracts/{make,unmake}.txt (bodies verified in unit board_make); lemma_wf_preserved assumed, discharged by Kani harness rules::wf_preserved",
+            "safe Rust: no `unsafe` in the sliced functions (checked lexically), no interior mutability in Bitboard",
+            "NOT decided: that the following go searches with the same score as a fresh engine, and that exactly one bestmove from the last completed iteration is sent (search-result / timing claims)",
+            "termination is not claimed (exec_allows_no_decreases_clause)",
+        ],
+        "kani": [{"set": "rules", "harnesses": ["wf_preserved"]}],
+    },
 }
